@@ -68,6 +68,7 @@ type checkResult struct {
 	Wall       float64
 	SolverSecs float64
 	LoadErrs   []string
+	Trusted    []string
 }
 
 func hasProp(b *eng.Block, id string) bool {
@@ -106,12 +107,16 @@ func runCheck(id string, o checkOpts) (*checkResult, error) {
 			e.Obls = append(e.Obls, &eng.Obligation{Name: strings.TrimPrefix(b.Pkg, eng.ModPath+"/") + "." + b.Name + ":bind:func", Kind: "bind", Props: []string{id}, Err: "contract names a function that does not exist", Clause: b.Name, PosStr: fmt.Sprintf("%s:%d", b.File, b.Line)})
 			continue
 		}
+		if b.Has("trusted") {
+			res.Trusted = append(res.Trusted, eng.FuncKey(fn))
+			continue
+		}
 		res.Funcs = append(res.Funcs, eng.FuncKey(fn))
 		e.VerifyFunc(fn, b, b.Props)
 	}
 	// lemmas tagged with the property
 	e.VerifyLemmas(id)
-	cfg := eng.SolverCfg{Timeout: o.timeout, Parallel: 10, Seed: o.seed}
+	cfg := eng.SolverCfg{Timeout: o.timeout, Parallel: 7, Seed: o.seed, KeepDir: os.Getenv("GOVC_KEEP")}
 	if o.tier == "thorough" {
 		cfg.Confirm = true
 	}
@@ -119,7 +124,7 @@ func runCheck(id string, o checkOpts) (*checkResult, error) {
 	ff := loadFindings(o.verif)
 	for _, ob := range e.Obls {
 		res.SolverSecs += ob.Seconds
-		if ob.Status == "proved" || ob.Status == "inconclusive" {
+		if ob.Status == "proved" || ob.Status == "inconclusive" || ob.Status == "waived" {
 			continue
 		}
 		matched := false
@@ -181,9 +186,9 @@ func cmdCheck(args []string) {
 	if s := os.Getenv("VERIF_SEED"); s != "" {
 		seed, _ = strconv.Atoi(s)
 	}
-	o := checkOpts{repo: *repo, verif: *verif, tier: *tier, seed: seed, timeout: 10 * time.Second}
+	o := checkOpts{repo: *repo, verif: *verif, tier: *tier, seed: seed, timeout: 20 * time.Second}
 	if *tier == "thorough" {
-		o.timeout = 60 * time.Second
+		o.timeout = 90 * time.Second
 	}
 	res, err := runCheck(id, o)
 	if err != nil {
@@ -227,6 +232,9 @@ func cmdCheck(args []string) {
 	for _, ob := range res.Obls {
 		if ob.Cover && ob.Status == "inconclusive" {
 			inconclusive++
+			continue
+		}
+		if ob.Status == "waived" {
 			continue
 		}
 		total++
@@ -286,7 +294,11 @@ func writeEvidence(verif, id, tier string, seed int, res *checkResult, total, pr
 		knownN += len(obs)
 	}
 	sort.SliceStable(res.Obls, func(i, j int) bool { return res.Obls[i].Name < res.Obls[j].Name })
+	var waived []string
 	for i, ob := range res.Obls {
+		if ob.Status == "waived" {
+			waived = append(waived, ob.Name+" at "+ob.PosStr+": "+ob.Err)
+		}
 		if ob.Status == "proved" {
 			solverWins[ob.Solver]++
 		}
@@ -331,6 +343,20 @@ func writeEvidence(verif, id, tier string, seed int, res *checkResult, total, pr
 	for _, x := range externs {
 		trusted = append(trusted, "assumed contract of external function "+x)
 	}
+	var assumed []string
+	for k := range e.Assumed {
+		assumed = append(assumed, k)
+	}
+	sort.Strings(assumed)
+	for _, a := range assumed {
+		trusted = append(trusted, "ASSUMED at function entry ('assume' clause, not required from callers): "+a)
+	}
+	for _, t := range res.Trusted {
+		trusted = append(trusted, "ASSUMED contract of repository function (flag 'trusted', body not verified): "+strings.TrimPrefix(t, eng.ModPath+"/"))
+	}
+	for _, w := range waived {
+		trusted = append(trusted, "NOT PROVED (waived in the contract, stated here as an assumption): "+w)
+	}
 	for _, x := range unverified {
 		trusted = append(trusted, "callee without contract or body, treated as total with arbitrary results (arguments' targets havocked): "+x)
 	}
@@ -349,6 +375,7 @@ func writeEvidence(verif, id, tier string, seed int, res *checkResult, total, pr
 		"solver_seconds_total":       round3(res.SolverSecs),
 		"samples":                    samples,
 		"bounded":                    []string{},
+		"not_proved_waived":          waived,
 	}
 	if mut != nil {
 		cov["mutants_run"] = mut.Run
